@@ -182,6 +182,11 @@ impl HistoryProp for P10 {
             _ => None,
         };
         self.entries_before = sim.epoll_entries().len();
+        if r.is_none() {
+            if let Some(d) = sim.idle_with_releasable_connection() {
+                return Some(("dead-connection-not-released".into(), d));
+            }
+        }
         r
     }
 
@@ -234,7 +239,7 @@ impl HistoryProp for P10 {
             }
             // a closed connection that is still owed answers keeps the epoll descriptor readable: that is
             // permitted, so stop once nothing at all has changed for a few calls
-            if quiet >= 4 && sim.gens.iter().any(|g| (g.client_closed || g.misbehaved) && sim.owed(g)) {
+            if quiet >= 4 && sim.gens.iter().any(|g| (g.client_closed || g.shut_wr || g.misbehaved) && sim.owed(g)) {
                 break;
             }
         }
@@ -274,7 +279,9 @@ impl HistoryProp for P10 {
             if g.admission == Admission::Accepted && !g.client_closed && !g.misbehaved && !has {
                 return Some(("premature-release".into(), format!("c{}g{} is open and was accepted, but its server-side socket is gone", g.client, g.gen)));
             }
-            if g.client_closed && !sim.owed(g) && has {
+            // (a client that shut down its sending side has disconnected as far as the server can tell: the
+            // hang-up is reported and the connection is only kept for the answers it still owes)
+            if (g.client_closed || g.shut_wr) && !sim.owed(g) && has {
                 return Some(("dead-connection-not-released".into(), format!("c{}g{} closed and is owed nothing, but its server-side socket is still open after the settle", g.client, g.gen)));
             }
             // (a client that shut down its reading side cannot see a refusal, so its Pending status may be stale:
@@ -321,7 +328,7 @@ impl HistoryProp for P10 {
         } else {
             let socks = sim.observe_admissions();
             let open_accepted = sim.gens.iter().filter(|g| g.admission == Admission::Accepted && !g.client_closed).count();
-            let dead_left = socks.iter().filter(|(_, gi)| gi.map(|g| sim.gens[g].client_closed).unwrap_or(true)).count();
+            let dead_left = socks.iter().filter(|(_, gi)| gi.map(|g| sim.gens[g].client_closed || sim.gens[g].shut_wr).unwrap_or(true)).count();
             if dead_left > 0 {
                 return Some(("dead-connection-not-released".into(), format!("after all answers were supplied and the server went idle, {} closed clients still have a server-side socket ({} open clients)", dead_left, open_accepted)));
             }
@@ -427,6 +434,64 @@ pub fn run(ctx: &mut Ctx) {
             ctx.rep.violation(&format!("C10:{}", k), d, hist::history_json(&acts, vec![("with_kill", J::Bool(p.with_kill))]));
             if ctx.rep.violations_total > 30 {
                 return;
+            }
+        }
+    }
+    // ---- the three ways of leaving (close, shut down sending, shut down both... as far as the alphabet goes) with
+    // 0..2 requests in flight, answered before or after the client left, next to 0..9 bystanders
+    let mut idx = 0u64;
+    for leave in 0..3usize {
+        for inflight in 0..3usize {
+            for answer_after in [false, true] {
+                for bystanders in [0usize, 3, 9] {
+                    idx += 1;
+                    if idx % ctx.nshards != ctx.shard {
+                        continue;
+                    }
+                    ctx.begin();
+                    ctx.rep.evaluations += 1;
+                    ctx.rep.count("histories_leaving");
+                    let mut acts = Vec::new();
+                    for c in 0..=bystanders {
+                        acts.push(Act::Connect(c));
+                        acts.push(Act::Poll);
+                    }
+                    match inflight {
+                        0 => {}
+                        1 => acts.push(Act::Send(0, Piece::Get)),
+                        _ => acts.push(Act::Send(0, Piece::Two)),
+                    }
+                    acts.push(Act::Poll);
+                    acts.push(Act::Poll);
+                    if !answer_after {
+                        acts.push(Act::RespondAll(Size::Small));
+                        acts.push(Act::Poll);
+                    }
+                    match leave {
+                        0 => acts.push(Act::Close(0)),
+                        1 => acts.push(Act::ShutWr(0)),
+                        _ => {
+                            acts.push(Act::ShutWr(0));
+                            acts.push(Act::Poll);
+                            acts.push(Act::ShutRd(0));
+                        }
+                    }
+                    acts.push(Act::Poll);
+                    if answer_after {
+                        acts.push(Act::RespondAll(Size::Small));
+                    }
+                    acts.push(Act::Poll);
+                    acts.push(Act::Poll);
+                    // a newcomer takes the seat
+                    acts.push(Act::Connect(bystanders + 1));
+                    acts.push(Act::Poll);
+                    acts.push(Act::RoundTrip(bystanders + 1));
+                    let mut p = P10::new(13);
+                    let out = hist::run_history(ctx, &mut p, &acts, true, false);
+                    if let Some((k, d)) = out.violation {
+                        ctx.rep.violation(&format!("C10:{}", k), d, hist::history_json(&acts, vec![("with_kill", J::Bool(false))]));
+                    }
+                }
             }
         }
     }
